@@ -27,6 +27,7 @@ func init() {
 		Imports: []Import{
 			{From: "C02.e", As: "C05.g", Why: "every chunk is verified by VerifyRange against the same `from`: 'all returned headers passed Verify' holds only if VerifyRange appends nothing that did not pass (a failure of the first header of a chunk included)"},
 			{From: "C02.d", As: "C05.g", Why: "the heights of a chunk increase by one only if VerifyRange returns nothing past its first adjacency failure"},
+			{From: "C02.b", As: "C05.g", Why: "'passed Verify starting from from' is a chain of verifications: VerifyRange has to verify every element of a chunk against its own predecessor, not against the chunk's anchor (a peer's forged headers at the right heights would pass)"},
 		},
 	})
 }
